@@ -352,7 +352,7 @@ def plan(prop, tier):
     if prop == "C02":
         n = 70 if q else 3000
         return [("planted-inf", 3 * n), ("thin", 2 * n), ("small-rand", n), ("small-int", n), ("degenerate", n), ("tiny", n), ("illcond", n),
-                ("knife", 4 * n)]
+                ("knife", 4 * n), ("knife-far", n)]
     if prop == "C03":
         n = 150 if q else 4000
         P = [(f, n) for f in ["small-rand", "small-int", "degenerate", "illcond", "thin", "planted-opt", "planted-inf"]]
